@@ -15,6 +15,8 @@ import (
 	"github.com/ipfs/go-cid"
 
 	ipfslog "berty.tech/go-ipfs-log"
+	"berty.tech/go-ipfs-log/entry"
+	"berty.tech/go-ipfs-log/iface"
 )
 
 func init() { register("C10", runC10) }
@@ -242,6 +244,46 @@ func runC10(seed int64, tier string, outDir string) *result {
 				}
 				if got, want := hashesOf(lr.Values().Slice()), all[len(all)-n:]; !eqStrings(got, want) {
 					mon.fail("exact-last-n", "C10:manifest:wrong-entries", fmt.Sprintf("limit %d under the hash ordering given to the loader: got %v, the last %d of the log's linearisation are %v", n, got, n, want), info)
+				}
+			}
+		}
+	}
+	// the same head reported by two replicas and handed to NewFromEntry twice: the load keeps
+	// min(max(n, k), size) entries, k the number of supplied entries, and they are the most recent ones
+	{
+		ctx := context.Background()
+		w := newWorld()
+		l, _ := ipfslog.NewLog(w.api, w.idents["A"], &ipfslog.LogOptions{ID: "T"})
+		for i := 1; i <= 6; i++ {
+			if _, err := l.Append(ctx, []byte(fmt.Sprintf("e%d", i)), nil); err != nil {
+				panic(err)
+			}
+		}
+		all := hashesOf(l.Values().Slice())
+		head := l.Heads().Slice()[0]
+		twin, err := entry.FromMultihash(ctx, w.api, head.GetHash(), w.idents["A"].Provider) // the same entry, another object
+		if err != nil {
+			panic(err)
+		}
+		for _, supplied := range [][]iface.IPFSLogEntry{{head, head}, {head, twin}, {head, twin, head}} {
+			for n := 0; n <= len(all)+1; n++ {
+				n := n
+				res.Evaluations++
+				info := map[string]interface{}{"scenario": "NewFromEntry with the same head supplied more than once", "supplied": len(supplied), "limit": n}
+				lr, err := ipfslog.NewFromEntry(ctx, w.api, w.idents["B"], supplied, &ipfslog.LogOptions{ID: "T"}, &entry.FetchOptions{Length: &n})
+				if err != nil {
+					mon.fail("exact-last-n", "C10:entries:error", err.Error(), info)
+					continue
+				}
+				keep := n
+				if len(supplied) > keep {
+					keep = len(supplied)
+				}
+				if keep > len(all) {
+					keep = len(all)
+				}
+				if got, want := hashesOf(lr.Values().Slice()), all[len(all)-keep:]; !eqStrings(got, want) {
+					mon.fail("exact-last-n", "C10:entries:wrong-entries", fmt.Sprintf("limit %d, %d supplied entries (one distinct): got %d entries, want the %d most recent", n, len(supplied), len(got), keep), info)
 				}
 			}
 		}
